@@ -1073,3 +1073,7 @@ UNIT_META["U71"] = {"functions": ["btree::node::Node::{insert (leaf branch), pos
 PROPS["C04"]["kani_units"] = list(PROPS["C04"]["kani_units"]) + ["U71"]
 PROPS["C04"]["claim"] = PROPS["C04"]["claim"] + " Leaf insert (Kani, complete over leaf sizes 0..=8, any key position): Node::insert of an absent key leaves the keys in ascending order with the new key among them carrying the new value and every old key its old value -- also when the full leaf is split into (left, separator handed up, right); of a present key it changes the value of that key only and tells the value writer which address it replaces; exactly one value entry is written."
 PROPS["C04"]["does_not_cover"] = [x.replace("leaf-level insert (Node::insert: creates the value entry) and the operation loop of Node::change", "the descent of Node::insert into a child and the operation loop of Node::change (which operation goes to which node)") for x in PROPS["C04"]["does_not_cover"]]
+
+# ---------------------------------------------------------------- C20 side condition: unselected columns are copied only after the source was opened (its logs replayed)
+PROPS["C20"]["syntactic"] = list(PROPS["C20"].get("syntactic", [])) + ["migrate_copies_after_source_open"]
+PROPS["C20"]["claim"] = PROPS["C20"]["claim"] + " Side condition (text dominance on migration::migrate, an assumption that is checked, not a proof): the source database is opened -- its pending write-ahead logs replayed into its files -- unconditionally and before any column is copied file by file."
